@@ -210,16 +210,16 @@ def NodeSt.empty : NodeSt := ⟨[], [], [], [], [], FMap.empty⟩
 def rm (c : Conn) (xs : List Conn) : List Conn := xs.filter (fun d => d ≠ c)
 def add (c : Conn) (xs : List Conn) : List Conn := if c ∈ xs then xs else c :: xs
 
-/-- `ClientRegistry.Remove` → `removeConnectionLocked`. -/
+/-- `ClientRegistry.Remove` → `removeConnectionLocked` (close the stream, `unindexLocked`, drop from connMap). -/
 def regRemove (n : NodeSt) (c : Conn) : NodeSt :=
   if c ∈ n.ctrl then
     { n with
       ctrl := rm c n.ctrl,
       authed := rm c n.authed,
       dead := c :: n.dead,
+      -- unindexLocked: every index entry that points at this connection (a connection is used by one client)
       byClient :=
-        if decide (c ∈ n.authed) && decide (c.client > 0) && decide (FMap.lookup n.byClient c.client = some c)
-        then FMap.erase n.byClient c.client else n.byClient }
+        if FMap.lookup n.byClient c.client = some c then FMap.erase n.byClient c.client else n.byClient }
   else n
 
 structure St where
